@@ -360,6 +360,21 @@ func meshHistories(c *Ctx, im *Impl) {
 			if a == b || links[[2]int{a, b}] != nil || !alive[tp.names[a]] || !alive[tp.names[b]] {
 				return
 			}
+			// a new session is refused ("already connected") until both ends have noticed that an earlier
+			// session between them is gone; a real backend would redial, these links do not: wait for that
+			gone := func(x, y string) bool {
+				nd := m.Nodes[x]
+				if nd == nil {
+					return true
+				}
+				for _, cs := range nd.Status().Connections {
+					if cs.NodeID == y {
+						return false
+					}
+				}
+				return true
+			}
+			WaitFor(2*time.Second, func() bool { return gone(tp.names[a], tp.names[b]) && gone(tp.names[b], tp.names[a]) })
 			l, err := m.Connect(tp.names[a], tp.names[b], cost)
 			if err != nil {
 				return
@@ -430,7 +445,7 @@ func meshHistories(c *Ctx, im *Impl) {
 		ne := 2 + r.Intn(5)
 		for e := 0; e < ne; e++ {
 			time.Sleep(time.Duration(r.Intn(250)) * time.Millisecond)
-			ev := r.Intn(7)
+			ev := r.Intn(8)
 			if t == 0 {
 				ev = 3 // the first history is a restart of a well-connected, long-lived node and nothing else
 			}
@@ -492,6 +507,22 @@ func meshHistories(c *Ctx, im *Impl) {
 						}
 						events = append(events, "restart "+id)
 					}
+				}
+			case 7: // a link is lost and comes back at once with another cost: the neighbour set of both ends is
+				// the same before and after, only the cost differs
+				for k, l := range links {
+					old := tp.edges[k]
+					l.Cut()
+					delete(links, k)
+					delete(tp.edges, k)
+					nc := old + float64(1+r.Intn(3))
+					if r.Chance(50) && old > 1 {
+						nc = old - 1
+					}
+					connect(k[0], k[1], nc)
+					events = append(events, fmt.Sprintf("recost %v %v->%v", k, old, nc))
+					cuts++
+					break
 				}
 			case 5, 6:
 				if ev := connectHeld(r.Intn(n), r.Intn(n), float64(1+r.Intn(4))); ev != "" {
